@@ -280,3 +280,11 @@ Proof.
   split; [apply last_weeks_eq; assumption|]. split; [assumption|]. split; [|lia].
   revert W. unfold isoweekday. rewrite E'. lia.
 Qed.
+
+(** closes the concrete non-vacuity examples of props/C04.v by evaluation *)
+Ltac c04_example :=
+  cbv zeta; unfold wf;
+  repeat match goal with |- _ /\ _ => split end;
+  vm_compute;
+  first [ reflexivity | discriminate | exact I
+        | let H := fresh in intros H; apply H; reflexivity ].
